@@ -110,7 +110,11 @@ func (u *echoUpstream) handle(w http.ResponseWriter, r *http.Request) {
 	h.Add("Link", "</b>; rel=preload, </c>; rel=prefetch")
 	h.Set("X-Serial", u.name+"-"+strconv.Itoa(serial))
 	h.Set("X-Echo-Path", r.URL.EscapedPath())
-	h.Set("X-Echo-Query", r.URL.RawQuery)
+	if q := r.URL.RawQuery; len(q) > 4096 {
+		h.Set("X-Echo-Query", "..."+q[len(q)-200:]) // very long queries: the tail identifies the request
+	} else {
+		h.Set("X-Echo-Query", q)
+	}
 	h.Set("X-Echo-Ae", r.Header.Get("Accept-Encoding"))
 	var added []string
 	for _, n := range []string{"X-Add-1", "X-Add-2"} {
